@@ -815,7 +815,21 @@ func (st *Runtime) isSet(node Node) (ok bool) {
 	return true
 }
 
+// locateOperandError adds the position of a binary expression to errors raised while coercing
+// its operands (toInt, toUint and toFloat panic with plain errors that don't know where they are).
+func (node *binaryExprNode) locateOperandError() {
+	if r := recover(); r != nil {
+		if err, ok := r.(error); ok {
+			if _, isRuntimeError := r.(runtime.Error); !isRuntimeError && !strings.HasPrefix(err.Error(), "Jet Runtime Error") {
+				node.error(err)
+			}
+		}
+		panic(r)
+	}
+}
+
 func (st *Runtime) evalNumericComparativeExpression(node *NumericComparativeExprNode) reflect.Value {
+	defer node.locateOperandError()
 	left, right := st.evalPrimaryExpressionGroup(node.Left), st.evalPrimaryExpressionGroup(node.Right)
 	isTrue := false
 	kind := left.Kind()
@@ -912,6 +926,7 @@ func (st *Runtime) evalLogicalExpression(node *LogicalExprNode) reflect.Value {
 }
 
 func (st *Runtime) evalComparativeExpression(node *ComparativeExprNode) reflect.Value {
+	defer node.locateOperandError()
 	left, right := st.evalPrimaryExpressionGroup(node.Left), st.evalPrimaryExpressionGroup(node.Right)
 	equal := checkEquality(left, right)
 	if node.Operator.typ == itemNotEquals {
@@ -999,6 +1014,7 @@ func toFloat(v reflect.Value) float64 {
 }
 
 func (st *Runtime) evalMultiplicativeExpression(node *MultiplicativeExprNode) reflect.Value {
+	defer node.locateOperandError()
 	left, right := st.evalPrimaryExpressionGroup(node.Left), st.evalPrimaryExpressionGroup(node.Right)
 	kind := left.Kind()
 	// if the left value is not a float and the right is, we need to promote the left value to a float before the calculation
@@ -1058,6 +1074,7 @@ func (st *Runtime) evalMultiplicativeExpression(node *MultiplicativeExprNode) re
 }
 
 func (st *Runtime) evalAdditiveExpression(node *AdditiveExprNode) reflect.Value {
+	defer node.locateOperandError()
 	isAdditive := node.Operator.typ == itemAdd
 	if node.Left == nil {
 		right := st.evalPrimaryExpressionGroup(node.Right)
